@@ -75,33 +75,44 @@ class FS:
     def install(self, mod):
         fs = self
 
-        class Path:
-            @staticmethod
-            def exists(p):
+        class _Path:
+            """os.path: `exists` is an environment event, everything else is pure string manipulation"""
+
+            def exists(self, p):
                 fs.tick("exists", p)
                 return p in fs.files
-            basename = staticmethod(_os.path.basename)
-            dirname = staticmethod(_os.path.dirname)
-            join = staticmethod(_os.path.join)
 
-        class FakeOS:
-            path = Path
+            def isfile(self, p):
+                fs.tick("exists", p)
+                return p in fs.files
 
-            @staticmethod
-            def rename(a, b):
+            def __getattr__(self, name):
+                if name in ("basename", "dirname", "join", "split", "splitext", "normpath", "abspath", "sep",
+                            "isabs", "commonprefix", "relpath", "expanduser"):
+                    return getattr(_os.path, name)
+                raise Unsupported("os.path.%s is not modelled" % name)
+
+        class _OS:
+            path = _Path()
+            sep = _os.sep
+            O_RDONLY = _os.O_RDONLY
+
+            def rename(self, a, b):
                 fs.tick("rename", "%s -> %s" % (a, b))
                 if a not in fs.files:
                     raise OSError("no such file")
                 fs.files[b] = fs.files.pop(a)
                 fs.tick("renamed", b)
 
-            @staticmethod
-            def close(fd):
+            replace = rename
+
+            def close(self, fd):
                 fs.tick("close-fd", fd)
 
-            @staticmethod
-            def fdopen(*a, **k):
-                raise Unsupported("fdopen")
+            def __getattr__(self, name):
+                raise Unsupported("os.%s is not modelled" % name)
+
+        FakeOS = _OS()
 
         class FakeTemp:
             @staticmethod
